@@ -803,3 +803,44 @@ Theorem from_format_rejects_cookie_rfc850_formats : forall rs zones now time,
   parse rs zones en now time (nf k_cookie) = Raise E_ValueError /\ parse rs zones en now time (nf k_rfc850) = Raise E_ValueError.
 Proof. exact from_format_rejects_cookie_rfc850. Qed.
 Print Assumptions from_format_rejects_cookie_rfc850_formats.
+
+(* ---- THE MODEL IS THE CODE (format side).  Gen/FormatterMethods.v is translated from /repo on every run (tools/vlib/pyfloat2gallina.py +
+   gens/g57_formatter_methods.py): Formatter._format_localizable_token and Formatter._format_token WHOLE (the branch order, every token comparison,
+   which locale key and which DateTime quantity each token reads, the arithmetic of e / eo / do, the meridian test of A, the date-format lookup with
+   its default table, and the FLOAT code of Z / ZZ: offset.total_seconds() / 60, >= 0, int(), abs, divmod, the f-string), one unfolding of
+   Formatter.format (recognised shape: Locale.load, _FORMAT_RE.sub with the three-group callback), DateTime._to_string and to_iso8601_string.
+   The hand model Model/Formatter.v, about which every format-side theorem above speaks, EQUALS that translation for every DateTime record, token,
+   locale and every meaning of the recursive self.format call.  Side condition of the Z / ZZ float code: the utcoffset lies strictly between -24 h
+   and +24 h (CPython's own bound on tzinfo.utcoffset) — there the float code agrees with the hand model's integer arithmetic, checked
+   exhaustively in the kernel (172799 offsets).  Generated DATA, not translated here: _TOKENS, _TOKENS_RULES (apply_rule is the model's reading of
+   one rule), _LOCALIZABLE_TOKENS, _DATE_FORMATS, _DEFAULT_DATE_FORMATS, DateTime._FORMATS, the to_*_string table, the locales. *)
+From PV Require Import Spec.TdFloat Model.FormatterPrims Gen.FormatterMethods Proofs.FormatterMethodsFacts.
+
+Theorem model_is_code_format_localizable_token : forall loc t tok, gen_format_localizable_token loc t tok = format_localizable loc t tok.
+Proof. exact gen_format_localizable_eq. Qed.
+Print Assumptions model_is_code_format_localizable_token.
+
+Theorem model_is_code_format_token : forall rec loc t tok, -86400 < t_off t < 86400 ->
+  gen_format_token rec loc t tok = format_token rec loc t tok.
+Proof. exact gen_format_token_eq. Qed.
+Print Assumptions model_is_code_format_token.
+
+(* the float code of the offset, on its own: minutes = offset.total_seconds() / 60 ; int(minutes) ; minutes >= 0 *)
+Theorem offset_float_code_is_integer_arithmetic : forall off, -86400 < off < 86400 ->
+  py_int_trunc (fdiv (total_seconds (off * 1000000)) (sf_of_Z 60)) = Ok (Z.quot off 60) /\
+  fge (fdiv (total_seconds (off * 1000000)) (sf_of_Z 60)) (sf_of_Z 0) = (0 <=? off).
+Proof. exact offset_float_code. Qed.
+Print Assumptions offset_float_code_is_integer_arithmetic.
+
+(* Formatter.format with a loaded locale: one unfolding = tokenize + the callback, the recursive call being the previous unfolding *)
+Theorem model_is_code_format : forall d loc t fmt, -86400 < t_off t < 86400 ->
+  format_loc (S d) loc t fmt = gen_format_step (format_loc d loc t) loc t fmt.
+Proof. exact gen_format_step_eq. Qed.
+Print Assumptions model_is_code_format.
+
+(* DateTime._to_string and to_iso8601_string (the other to_*_string helpers are entries of the generated table string_helpers) *)
+Theorem model_is_code_to_string_helpers : forall t,
+  (forall key locale, gen_to_string key locale t = to_string key locale t) /\
+  gen_to_iso8601_string t = string_helper [116; 111; 95; 105; 115; 111; 56; 54; 48; 49; 95; 115; 116; 114; 105; 110; 103] t.
+Proof. intros t. split; [intros; apply gen_to_string_eq | exact (gen_to_iso8601_string_eq t iso8601_helper_entry)]. Qed.
+Print Assumptions model_is_code_to_string_helpers.
